@@ -1,6 +1,6 @@
 """What MANIFEST.json claims, per property (bin/mkmanifest turns this into MANIFEST.json)."""
 
-HOOK_COMMITS: list = []
+HOOK_COMMITS: list = ["985e22ee57e411e64baa6dc520dbcfa1e5b71458", "cd8fbeae55cebbb345c3152c37383f30a1760ad9"]
 NOTES = ("Model-based verification with explicit TLA+ specifications (spec/*.tla). Every verdict is produced by TLC: "
          "model checking of the property spec (tier P) and of the implementation-shaped spec (tier I), and validation of traces "
          "recorded from rdflib against the trace spec (tier T) that re-uses tier P's operators. See DESIGN.md.")
